@@ -197,6 +197,70 @@ def run(ctx):
         ctx.ob('ROUND-ONLY', f.name, not casts, f.loc(casts[0]) if casts else f.loc(f.body), 'rounding via %s; truncating casts: %s' % (rnd or 'n/a', [f.s(n)[:40] for n in casts]), None)
     _norm_slot_and_round_type(ctx)
     # ---- the scale of SFC_SET_SCALE_FLOAT_INT_READ is 0x7FFF / float_max (2^31 / float_max): float_max must be positive when it is used
+    ctx.rule('CLIP-SELECT', 'every selection `psf->add_clipping ? A : B` between two conversion functions, anywhere in the library (pcm.c, ALAC, FLAC, MPEG ...), has the clipping variant '
+             '(name containing _clip) as A and its plain twin (the same name without _clip) as B: with SFC_SET_CLIPPING on, out-of-range input saturates instead of wrapping', floor=20)
+    n_cs = 0
+    for f in sorted(prog.lib_fns(), key=lambda f: (f.file, f.line)):
+        for n in f.walk():
+            if n['k'] != 'ConditionalOperator':
+                continue
+            kids = [f.unwrap(f.N[k]) for k in n['kids']]
+            cs = f.s(kids[0]).replace('(', '').replace(')', '').replace(' == SF_TRUE', '').strip()
+            if not cs.endswith('add_clipping') or '!' in cs:
+                continue
+            a, b = kids[1], kids[2]
+            if a.get('dk') != 'func' or b.get('dk') != 'func':
+                continue
+            n_cs += 1
+            ok = '_clip' in a['n'] and a['n'].replace('_clip', '') == b['n']
+            ctx.ob('CLIP-SELECT', '%s@%d' % (f.name, n['l']), ok, f.loc(n), 'clipping on selects %s, off selects %s%s' % (a['n'], b['n'], '' if ok else
+                   ': the arms are not (clipping variant, plain twin) in this order - with clipping requested the non-saturating converter runs'), None)
+    ctx.require(n_cs >= 20, 'only %d add_clipping selections found' % n_cs)
+
+    ctx.rule('CLIP-GUARD', 'wherever a rounded value is stored under a saturation chain `if (X > HI) d = MAX ; else if (X < LO) d = MIN ; else d = psf_lrint[f] (X)`, the folded thresholds satisfy '
+             'HI <= max (type of d) and LO >= min (type of d): every value that reaches the rounding call fits the destination (a threshold that rounds up to 2^31 as a float lets exactly '
+             'that value through and it wraps to INT_MIN)', floor=4)
+    from engine.model import int_type as _it
+    n_cg = 0
+    for f in sorted(prog.lib_fns(), key=lambda f: (f.file, f.line)):
+        for n in f.walk():
+            if n['k'] != 'IfStmt' or n.get('else') is None:
+                continue
+            par = f.N[f.parent[n['id']]] if n['id'] in f.parent else None
+            if par is not None and par['k'] == 'IfStmt' and par.get('else') == n['id']:
+                continue            # not the head of the chain
+            chain, cur = [], n
+            while cur is not None and cur['k'] == 'IfStmt':
+                chain.append(cur)
+                cur = f.N[cur['else']] if cur.get('else') is not None else None
+            if cur is None:
+                continue
+            fin = [a for a in f.walk(cur) if a['k'] == 'BinaryOperator' and a.get('op') == '=' and any(c.get('callee') in ('psf_lrint', 'psf_lrintf', 'lrint', 'lrintf') for c in f.calls(root=a))]
+            if len(fin) != 1:
+                continue
+            a = fin[0]
+            call = [c for c in f.calls(root=a) if c.get('callee') in ('psf_lrint', 'psf_lrintf', 'lrint', 'lrintf')][0]
+            X = f.s(f.unwrap(f.args(call)[0]))
+            dt = _it(f.N[a['kids'][0]].get('t') or '')
+            if not dt:
+                continue
+            tmax, tmin = (2 ** (dt[0] - 1) - 1, -2 ** (dt[0] - 1)) if dt[1] else (2 ** dt[0] - 1, 0)
+            for g in chain:
+                cn = f.unwrap(f.N[g['cond']])
+                if cn.get('k') != 'BinaryOperator' or cn.get('op') not in ('>', '>=', '<', '<='):
+                    continue
+                l, r = f.unwrap(f.N[cn['kids'][0]]), f.N[cn['kids'][1]]
+                ru = f.unwrap(r)
+                C = r.get('fv', ru.get('fv', ru.get('v')))
+                if f.s(l) != X or C is None:
+                    continue
+                n_cg += 1
+                up = cn['op'] in ('>', '>=')
+                ok = (C <= tmax) if up else (C >= tmin)
+                ctx.ob('CLIP-GUARD', '%s:%s' % (f.name, 'high' if up else 'low'), ok, f.loc(g), '`%s` with folded threshold %r; destination %s holds [%d, %d]%s' % (f.s(cn)[:50], C, f.N[a['kids'][0]].get('t'), tmin, tmax,
+                       '' if ok else ': values between the destination limit and the threshold reach %s and overflow' % call['callee']), None)
+    ctx.require(n_cg >= 4, 'only %d saturation thresholds found' % n_cg)
+
     ctx.rule('SCALE-NONZERO', 'the measured maximum stored into psf->float_max by SFC_SET_SCALE_FLOAT_INT_READ is replaced by a positive constant when it is not positive (a silent file), '
              'before the command returns: the readers divide by it', floor=1)
     cf = prog.fn('sf_command', 'sndfile.c')
